@@ -536,10 +536,28 @@ def _describe(a):
     return 'list of Python %ss' % type(flat).__name__
 
 
+def _resolve_near_matched(case):
+    """surfaces drawn with 'dn' get the index n_in * (1 + dn), n_in being the index of the medium the ray arrives in"""
+    specs = []
+    nj = float(case['n_ambient'])
+    changed = False
+    for sp in case['surfaces']:
+        sp = dict(sp)
+        if sp['typ'] == 'refr':
+            if sp.get('dn') is not None:
+                sp['n'] = nj * (1.0 + sp['dn'])
+                changed = True
+            nj = float(sp['n'])
+        specs.append(sp)
+    return specs, changed
+
+
 def check_trace(case, ctx):
     """raytrace() through 1..3 surfaces: every step keeps the ray on its line and on the sag, |S'|=1, law of reflection / vector Snell law."""
     from prysm.x.raytracing import spencer_and_murty as sm
-    specs = case['surfaces']
+    specs, near = _resolve_near_matched(case)
+    if near:
+        ctx.label('nearly-index-matched-interface')
     mdls = [Model(s) for s in specs]
     surfs = [build(ctx, s, m) for s, m in zip(specs, mdls)]
     frames = [check_frame(ctx, sf, s) for sf, s in zip(surfs, specs)]
@@ -809,6 +827,9 @@ def _fit_P(s):
 def surface_s(kinds, maxtilt, zpos, types=('refl', 'refr')):
     def mk(kind):
         d = {'kind': st.just(kind), 'typ': st.sampled_from(list(types)), 'n': _i(1000, 1900, 1000),
+             # nearly index-matched interface: the index after the surface is (1 + dn) times the index before it (two melts of one
+             # glass, layers of a stratified medium); the law of refraction applies all the same
+             'dn': st.one_of(st.none(), st.none(), st.none(), st.sampled_from([3e-6, -5e-6, 1e-7, -2e-8])),
              'P': st.tuples(_i(-50, 50, 10), _i(-50, 50, 10), zpos).map(list), 'R': tilt_s(maxtilt), 'ctor': ctor_s()}
         if kind != 'plane':
             # gentle curvatures, and the far ends: nearly flat, and radii of curvature of 2, 0.5, 0.1 (the ray bundle scales with it)
